@@ -87,7 +87,8 @@ class SimClock(object):
 KINDS = [['ok', 'prims'], ['ok', 'echo'], ['ok', 'inners'], ['ok', 'multi'],
          ['ok', 'noargs'], ['ok', 'sub'], ['ok', 'strict'], ['gen', 2],
          ['failcall'], ['unknown'], ['invalid'], ['wsdl'], ['ok', 'pa'],
-         ['ok', 'poly'], ['malformed', 'truncate']]
+         ['ok', 'poly'], ['malformed', 'truncate'], ['ok', 'item1'],
+         ['ok', 'item2'], ['twins']]
 
 
 def _request_mix(rng, theme):
@@ -110,12 +111,16 @@ def catalogue():
                               ('soap12', 'soap12', 'soft'),
                               ('xml', 'xml', 'lxml'),
                               ('msgpackrpc', 'msgpackrpc', None)]):
+        # every request kind of the workload vocabulary is executed, so that
+        # X contains whatever any of them can reach
+        kinds = [list(x) for x in KINDS]
+        callers = [kinds[0::3], kinds[1::3], kinds[2::3]]
         case = {'seed': 12345 + k, 'useed': 777 + k, 'in_prot': pair[0],
                 'out_prot': pair[1], 'validator': pair[2],
-                'callers': [[['wsdl'], ['ok', 'echo'], ['invalid']],
-                            [['ok', 'prims'], ['wsdl'], ['failcall']],
-                            [['gen', 2], ['unknown'], ['ok', 'sub']]],
-                'aseeds': [[1, 2, 3], [4, 5, 6], [7, 8, 9]],
+                'poly': k % 2 == 0,
+                'callers': callers,
+                'aseeds': [[100 * c + i for i in range(len(cl))]
+                           for c, cl in enumerate(callers)],
                 'plan': {'pct': [50, 500, 2000], 'region': None, 'p': 0.0,
                          'sseed': 1}, 'gc': False}
         s, _, _ = _concurrent(case)
@@ -127,7 +132,7 @@ def catalogue():
 
 
 def gen_cases(tier, verif_seed):
-    n_groups = {'quick': 900, 'thorough': 40000}[tier]
+    n_groups = {'quick': 1200, 'thorough': 40000}[tier]
     opcode_share = {'quick': .25, 'thorough': .5}[tier]
     cat = sorted(catalogue())
     for g in range(n_groups):
@@ -196,6 +201,9 @@ def _instance(case):
 
 def _mk_request(uni, case, rclass, aseed):
     rng = Streams(aseed)['args']
+    if rclass[0] == 'twins':
+        # same-named classes of two namespaces, in flight together
+        rclass = ['ok', 'item1' if rng.random() < .5 else 'item2']
     if rclass[0] == 'failcall':
         from sim.universe import encode_request
         r = encode_request(uni, case['in_prot'], 'fail', {'a': 3})
@@ -250,7 +258,7 @@ def _reference(case, ci, ri):
     req = _mk_request(uni, case, rclass, case['aseeds'][ci][ri])
     o = call_wsgi(wsgi, req)
     ref = (canon.canon_response(case['out_prot'], o, rclass[0] == 'wsdl'),
-           _cl_ok(o))
+           _cl_ok(o), canon.mask(o.body) if o.body is not None else None)
     if len(_REF_CACHE) > 4000:
         _REF_CACHE.clear()
     _REF_CACHE[key] = ref
@@ -354,7 +362,16 @@ def run_case(case):
                 is_wsdl = rclass[0] == 'wsdl'
                 n_wsdl += is_wsdl
                 got = canon.canon_response(out_prot, o, is_wsdl)
-                ref, _ = _reference(case, ci, ri)
+                ref, _, ref_raw = _reference(case, ci, ri)
+                if got == ref and ref_raw != (canon.mask(o.body)
+                                      if o.body is not None else None):
+                    # same document, different bytes (e.g. namespace
+                    # declarations): still not the response it gets alone
+                    viol('bytes-differ|%s' % rclass[0], 'caller %d request %d '
+                         '(%s): the response parses to the same document but '
+                         'its bytes differ from what it gets alone: alone=%s '
+                         'concurrent=%s' % (ci, ri, rclass, _short(ref_raw),
+                                            _short(canon.mask(o.body))))
                 if got != ref:
                     path = _diff_path(ref, got)
                     kind = 'wsdl-differs' if is_wsdl else (
